@@ -300,8 +300,20 @@ Definition ui_enc_ok (rt : pystr) (enc : option (pystr * pystr)) (secret_len : N
   | Some (a, e) => negb (ui_enc_registered a e) || enc_key_ok a secret_len
   end.
 
-(* the provider never encrypts ID Tokens: nothing sets encrypt=True on the way to IDToken.__call__ *)
+(* the provider never encrypts ID Tokens: nothing sets encrypt=True on the way to IDToken.__call__ ... *)
 Definition idt_encrypted (c : cfg) : bool := false.
+(* ... and a statically registered relying party enforces the id_token_encrypted_response_alg / _enc it registered
+   when it verifies an ID Token (gather_verify_arguments: encalg / encenc), so the signed-only ID Token is
+   rejected where it arrives: in the authorization response, or in the token response *)
+Definition idt_enc_registered (enc : option (pystr * pystr)) : bool :=
+  match enc with
+  | Some (a, e) => is_some (registered1 [a] op_idt_enc_algs) && is_some (registered1 [e] op_idt_enc_encs)
+  | None => false
+  end.
+Definition idt_enc_front_ok (rt : pystr) (enc : option (pystr * pystr)) : bool :=
+  negb (idt_enc_registered enc && str_in (PS "id_token") (artefacts_op rt)).
+Definition idt_enc_token_ok (rt : pystr) (enc : option (pystr * pystr)) : bool :=
+  negb (idt_enc_registered enc && uses_token_endpoint rt).
 
 (* ------------------------------------------------------------------ the staged flow *)
 Definition checks (c : cfg) (i : inp) : list (place * bool) :=
@@ -315,8 +327,10 @@ Definition checks (c : cfg) (i : inp) : list (place * bool) :=
     (AuthzProcess, idt_authz_ok (c_rt c) (c_idt_sig c));
     (AuthzProcess, op_mode_ok (c_rt c) (c_rm c));
     (RpFinalize, idt_hashes_ok (c_rt c));
+    (RpFinalize, idt_enc_front_ok (c_rt c) (c_idt_enc c));
     (TokenEp, token_auth_ok (c_rt c) (c_auth c));
     (TokenEp, idt_token_ok (c_rt c) (c_idt_sig c));
+    (RpFinalize, idt_enc_token_ok (c_rt c) (c_idt_enc c));
     (UserinfoEp, ui_sig_ok (c_rt c) (c_ui_sig c));
     (UserinfoEp, ui_enc_ok (c_rt c) (c_ui_enc c) (i_secret_len i)) ].
 
@@ -366,6 +380,10 @@ Definition lim_byref_consent (tr : transport) (offline : bool) : bool := is_stub
 Definition lim_par_jwt (tr : transport) (auth : pystr) : bool :=
   match tr with TPar => is_jwt_method auth | _ => false end.
 
+(* a registered ID Token encryption: the provider does not apply it, the relying party insists on it *)
+Definition lim_idt_enc (rt : pystr) (enc : option (pystr * pystr)) : bool :=
+  is_some enc && (has_word "id_token" rt || uses_token_endpoint rt).
+
 (* PAR with a claims request *)
 Definition lim_par_claims (tr : transport) (claims : bool) : bool :=
   match tr with TPar => claims | _ => false end.
@@ -375,7 +393,8 @@ Definition limits (c : cfg) (i : inp) : bool :=
   || lim_hs_idt (c_rt c) (c_idt_sig c) || lim_hs_ui (c_rt c) (c_ui_sig c)
   || lim_kw_secret (c_rt c) (c_ui_enc c) (i_secret_len i)
   || lim_byref_nonce (c_tr c) (c_rt c) || lim_byref_consent (c_tr c) (i_offline i)
-  || lim_par_jwt (c_tr c) (c_auth c) || lim_par_claims (c_tr c) (i_claims i).
+  || lim_par_jwt (c_tr c) (c_auth c) || lim_par_claims (c_tr c) (i_claims i)
+  || lim_idt_enc (c_rt c) (c_idt_enc c).
 
 (* ------------------------------------------------------------------ the configuration space *)
 Definition in_opt (o : option pystr) (l : list pystr) : Prop :=
